@@ -10,10 +10,10 @@ FIELDS = ["str", "val", "scheme", "raw_user", "user", "raw_password", "password"
 
 
 def run(out, sc, tier, seed):
-    run_quoter_level(out, sc, tier, seed, "C03")
+    run_quoter_level(out, sc, tier, seed, "C03", bounds=({"charcore": 4} if tier == "thorough" else None))
     run_value_machine(out, sc, "C03", tier, fields=FIELDS, extras=["reparse"])
     run_model(out, sc, "MC_Split", ["Inv_Recompose"], ["MaxLen = %d" % (4 if tier == "quick" else 5), "Alphabet <- DelimAlphabet"],
               label="MC_Split[recompose]")
-    n = 10000 if tier == "quick" else 250000
+    n = 10000 if tier == "quick" else 80000
     run_progs(out, sc, "C03", {"gen": "progs", "n": n, "seed": seed, "surrogate_p": 0.02, "fields": FIELDS,
                                "extras": ["reparse"]}, "progs")
